@@ -197,6 +197,13 @@ class Cache(Machine):
                             "dirty": s.choice(self.DIRTY_VARIANTS)})
                 if out_env not in env_slots:
                     env_slots.append(out_env)
+        if prop == "C10" and s.chance(0.5 if tier == "quick" else 0.9):
+            # the quantifier's own enumeration: block sizes 1..512 and powers of two, slot lengths in every residue class
+            n_eb = 6 if tier == "quick" else 48
+            ebs = sorted(set([s.randint(1, 512) for _ in range(n_eb)] + [s.choice([1, 2, 3, 23, 24, 25, 255, 256, 257, 511, 512])]
+                             + ([s.choice([1024, 2048, 4096, 8192])] if s.chance(0.5) else [])))
+            ops.append({"kind": "residue_sweep", "i": len(ops), "ebs": ebs, "uri_len": s.choice([1, 13, 22, 23, 24, 200, 254, 255, 256]),
+                        "gen": s.u64() % (1 << 48)})
         return {"seed": seed, "swarm": swarm, "ops": ops, "faults": []}
 
     def place_faults(self, plan, counts, prop):
@@ -298,6 +305,61 @@ class Cache(Machine):
                 faulted = False
                 model["_nontrivial"] = True
         return o, faulted
+
+    def _residue_sweep(self, host, model, op, faults, prop):
+        """Three-slot caches through the library API for whole residue classes: the middle slot's length runs through every
+        residue modulo the block size (all of them up to 64, the special ones and a seeded sample above)."""
+        ex = model["_extra"]
+        s = Stream(op["gen"], "sweep")
+        uri1 = "#" + "u" * (op["uri_len"] - 1)
+        vs = []
+        model["_abstract"] = ("residue_sweep", len(op["ebs"]))
+        for eb in op["ebs"]:
+            if eb <= 64:
+                residues = list(range(eb))
+            else:
+                residues = sorted({0, 1, 2, 3, 4, 5, 22, 23, 24, 25, 26, 27, eb - 3, eb - 2, eb - 1, eb // 2}
+                                  | {s.below(eb) for _ in range(12)})
+            cases = []
+            for r in residues:
+                klen = len(cborr.enc(uri1))
+                want = (r - (klen + 5)) % eb
+                d0 = world.blob(host.seed, f"sw0-{eb}", s.choice([0, 1, 7, eb]))
+                d1 = world.blob(host.seed, f"sw1-{eb}-{r}", want)
+                d2 = world.blob(host.seed, f"sw2-{eb}", 3)
+                cases.append([("first", d0), (uri1, d1), ("last", d2)])
+
+            def run():
+                from suit_generator.cmd_cache_create import CachePartition
+
+                outs = []
+                for n, pairs in enumerate(cases):
+                    c = CachePartition(eb)
+                    for u, d in pairs:
+                        c.add_cache_slot(u, d)
+                    path = host.path(f"sweep_{op['i']}.cache")
+                    c.close_and_save_cache(path)
+                    with open(path, "rb") as fh:
+                        outs.append(fh.read())
+                return outs
+
+            o = host.tool(run, kind="cache_residue_sweep")
+            self.note(model, o)
+            if not o.ok:
+                return [violation("C10", "valid-operation-failed", op["i"],
+                                  f"building three-slot caches with eb={eb} through the library failed: {o.exc_type}: {o.exc_msg}",
+                                  cls="unexpected-failure", site=o.site)]
+            for pairs, raw in zip(cases, o.value):
+                vs = self._check_cache(prop, op, raw, eb, pairs, ex)
+                ex["residue_sweep_cases"] = ex.get("residue_sweep_cases", 0) + 1
+                if vs:
+                    for v in vs:
+                        v["detail"] = f"residue sweep, middle slot {len(pairs[1][1])} B, URI length {op['uri_len']}: " + v["detail"]
+                    return vs
+            if eb not in ex["eb_sizes"] and len(ex["eb_sizes"]) < 200:
+                ex["eb_sizes"].append(eb)
+        model["_nontrivial"] = True
+        return []
 
     def _from_payloads(self, host, model, op, faults, prop):
         ex = model["_extra"]
